@@ -1,9 +1,10 @@
 (* C11 - the network theorems: the kernel-evaluated shards (RtSweep_*.v) combined into statements over
    the whole finite families, and the "finite, at most once" reading obtained from the same sweep. *)
 From Coq Require Import List Arith Bool PeanoNat Lia.
-From Icv Require Import Route.RtModel Route.RtNet Route.RtFamilies.
-From Icv Require Import Route.RtSweep_ch_a Route.RtSweep_ch_b Route.RtSweep_chg
-     Route.RtSweep_g_a Route.RtSweep_g_b.
+From Icv Require Import Route.RtModel Route.RtProofs Route.RtNet Route.RtFamilies Route.RtSched Route.RtNetSound.
+From Icv Require Import Route.RtSweep_ch_a Route.RtSweep_ch_b Route.RtSweep_ch_g
+     Route.RtSweep_g_a Route.RtSweep_g_b Route.RtSweep_g_c1 Route.RtSweep_g_c2
+     Route.RtSweep_g_d1 Route.RtSweep_g_d2 Route.RtSweep_g_d3 Route.RtSweep_g_d4.
 Import ListNotations.
 
 (* a weaker final condition is satisfied by every run that satisfies a stronger one *)
@@ -14,11 +15,9 @@ Lemma rt_explore_mono : forall (f g : list nat -> bool), (forall p, f p = true -
 Proof.
   intros f g H. induction fuel as [|n IH]; intros c links target inflight processed; [simpl; auto|].
   cbn [rt_explore]. destruct inflight as [|m r]; [apply H|].
-  remember (m :: r) as infl. clear Heqinfl. rewrite !forallb_forall. intros K i Hi. specialize (K i Hi).
-  destruct (rt_zone_of c (rt_mto (nth i infl rt_msg0))); [|discriminate].
-  match goal with |- (if ?b then _ else _) = true => destruct b end; [apply IH; assumption|].
-  match goal with |- (if ?b then _ else _) = true => destruct b end; [discriminate|].
-  rewrite forallb_forall in *. intros x Hx. apply IH. apply K. assumption.
+  destruct (rt_effects c links target m) as [effs|]; [|auto].
+  rewrite !forallb_forall. intros K e He. specialize (K e He).
+  apply andb_true_iff in K. destruct K as [K1 K2]. apply andb_true_iff. split; [assumption|apply IH; assumption].
 Qed.
 
 Lemma rt_run_ok_mono : forall (f g : list nat -> bool), (forall p, f p = true -> g p = true) ->
@@ -88,20 +87,103 @@ Theorem rt_chains_global_all_ok : forall c links s,
   In s (flat_map rt_zeps (c ++ [rt_gzone])) -> rt_all_ok (c ++ [rt_gzone]) links (length c) s = true.
 Proof.
   intros c links s Hc Hl Hs.
-  apply (rt_sweep_cfg_spec (c ++ [rt_gzone]) [length c] links (length c) s (rt_sweep_chg_in _ c RtSweep_chg.rt_sweep_chg Hc) Hl); [|exact Hs].
+  apply (rt_sweep_cfg_spec (c ++ [rt_gzone]) [length c] links (length c) s (rt_sweep_chg_in _ c rt_sweep_ch_g Hc) Hl); [|exact Hs].
   left. reflexivity.
 Qed.
 
-(* trees of depth <= 3, <= 2 children per zone, global target, at most 9 directly related endpoint pairs *)
+Lemma rt_skipn_skipn : forall (A : Type) m n (l : list A), skipn n (skipn m l) = skipn (m + n) l.
+Proof.
+  induction m as [|m IH]; intros n l; [reflexivity|].
+  destruct l as [|x l]; simpl; [destruct n; reflexivity | apply IH].
+Qed.
+
+Lemma rt_in_split3 : forall (A : Type) n (l : list A) x, In x l ->
+  In x (firstn n l) \/ In x (firstn n (skipn n l)) \/ In x (firstn n (skipn (2 * n) l)) \/ In x (skipn (3 * n) l).
+Proof.
+  intros A n l x H. destruct (rt_in_split A n l x H) as [K|K]; [auto|].
+  destruct (rt_in_split A n _ x K) as [K2|K2]; [auto|]. rewrite rt_skipn_skipn in K2.
+  replace (n + n) with (2 * n) in K2 by lia.
+  destruct (rt_in_split A n _ x K2) as [K3|K3]; [auto|].
+  rewrite rt_skipn_skipn in K3. replace (2 * n + n) with (3 * n) in K3 by lia. auto.
+Qed.
+
+(* trees of depth <= 3, <= 2 children per zone, global target, at most 12 directly related endpoint pairs *)
 Theorem rt_global_all_ok : forall c links s,
-  In c rt_global_trees -> rt_pairs c <= 9 -> In links (rt_powerset (rt_related_pairs c)) ->
+  In c rt_global_trees -> rt_pairs c <= 12 -> In links (rt_powerset (rt_related_pairs c)) ->
   In s (flat_map rt_zeps c) -> rt_all_ok c links (rt_gtarget c) s = true.
 Proof.
   intros c links s Hc Hp Hl Hs.
   assert (rt_sweep_cfg c [rt_gtarget c] = true) as K.
-  { destruct (le_lt_dec (rt_pairs c) 8) as [A|A].
-    - exact (rt_sweep_g_in _ c rt_sweep_g_a (rt_fam_g_in rt_global_trees 0 8 c Hc (Nat.le_0_l _) A)).
-    - assert (9 <= rt_pairs c) as B by lia.
-      exact (rt_sweep_g_in _ c rt_sweep_g_b (rt_fam_g_in rt_global_trees 9 9 c Hc B Hp)). }
+  { destruct (le_lt_dec (rt_pairs c) 9) as [A|A].
+    { exact (rt_sweep_g_in _ c rt_sweep_g_a (rt_fam_g_in rt_global_trees 0 9 c Hc (Nat.le_0_l _) A)). }
+    destruct (le_lt_dec (rt_pairs c) 10) as [B|B].
+    { assert (10 <= rt_pairs c) as B' by lia.
+      exact (rt_sweep_g_in _ c rt_sweep_g_b (rt_fam_g_in rt_global_trees 10 10 c Hc B' B)). }
+    destruct (le_lt_dec (rt_pairs c) 11) as [C|C].
+    { assert (11 <= rt_pairs c) as C' by lia.
+      pose proof (rt_fam_g_in rt_global_trees 11 11 c Hc C' C) as I.
+      destruct (rt_in_split _ 13 _ _ I) as [H|H].
+      - exact (rt_sweep_g_in _ c rt_sweep_g_c1 H).
+      - exact (rt_sweep_g_in _ c rt_sweep_g_c2 H). }
+    assert (12 <= rt_pairs c) as D' by lia.
+    pose proof (rt_fam_g_in rt_global_trees 12 12 c Hc D' Hp) as I.
+    destruct (rt_in_split3 _ 8 _ _ I) as [H|[H|[H|H]]].
+    - exact (rt_sweep_g_in _ c rt_sweep_g_d1 H).
+    - exact (rt_sweep_g_in _ c rt_sweep_g_d2 H).
+    - exact (rt_sweep_g_in _ c rt_sweep_g_d3 H).
+    - exact (rt_sweep_g_in _ c rt_sweep_g_d4 H). }
   apply (rt_sweep_cfg_spec c [rt_gtarget c] links (rt_gtarget c) s K Hl); [|exact Hs]. left. reflexivity.
+Qed.
+
+(* ---------------- from the boolean verdicts to statements about the step relation ---------------- *)
+Lemma rt_final_complete_ext : forall c links target lzs P P',
+  (forall x, In x P <-> In x P') -> rt_final_complete c links target lzs P = rt_final_complete c links target lzs P'.
+Proof.
+  intros c links target lzs P P' H. unfold rt_final_complete. f_equal.
+  induction (flat_map (rt_eps c) (rt_entitled_zones c target lzs)) as [|e l IH]; simpl; [reflexivity|].
+  rewrite IH. f_equal. apply eq_true_iff_eq. rewrite !rt_mem_In. apply H.
+Qed.
+
+Definition rt_small_b (c : rt_cfg) : bool := forallb (fun zr => length (rt_zeps zr) <=? 2) c.
+Lemma rt_small_b_spec : forall c, rt_small_b c = true -> rt_small c.
+Proof.
+  intros c H z. unfold rt_eps, rt_getz. destruct (nth_in_or_default z c rt_zdummy) as [K|K].
+  - unfold rt_small_b in H. rewrite forallb_forall in H. apply Nat.leb_le. apply H. assumption.
+  - rewrite K. simpl. lia.
+Qed.
+
+Lemma rt_families_small :
+  forallb rt_small_b rt_chains && forallb (fun c => rt_small_b (c ++ [rt_gzone])) rt_chains &&
+  forallb rt_small_b rt_global_trees = true.
+Proof. vm_compute. reflexivity. Qed.
+
+Lemma rt_chains_small : forall c, In c rt_chains -> rt_small c /\ rt_small (c ++ [rt_gzone]).
+Proof.
+  intros c H. pose proof rt_families_small as F.
+  apply andb_true_iff in F. destruct F as [F _]. apply andb_true_iff in F. destruct F as [F1 F2].
+  split; apply rt_small_b_spec.
+  - exact (rt_forallb_in _ rt_small_b rt_chains c F1 H).
+  - exact (rt_forallb_in _ (fun c => rt_small_b (c ++ [rt_gzone])) rt_chains c F2 H).
+Qed.
+
+Lemma rt_global_trees_small : forall c, In c rt_global_trees -> rt_small c.
+Proof.
+  intros c H. pose proof rt_families_small as F. apply andb_true_iff in F. destruct F as [_ F].
+  apply rt_small_b_spec. exact (rt_forallb_in _ rt_small_b rt_global_trees c F H).
+Qed.
+
+(* what rt_all_ok = true means: for EVERY admissible per-node iteration order and EVERY run of the network
+   relation from the originating relay: fewer than rt_fuel c deliveries (finitely many transmissions), no
+   delivery makes an endpoint process the event a second time, and when nothing is in flight any more the
+   processed set is complete (under the connectivity premise, see rt_final_complete) *)
+Theorem rt_all_ok_relational : forall c links target s lz nord,
+  rt_small c -> rt_nord_ok c nord -> rt_zone_of c s = Some lz -> rt_all_ok c links target s = true ->
+  forall k st', rt_sched_run rt_msg (rt_effect c links target nord) (rt_init c links target nord s lz) k st' ->
+    k < rt_fuel c /\
+    (fst st' = [] -> rt_final_complete c links target lz (snd st') = true) /\
+    (forall np st'', rt_sched_step rt_msg (rt_effect c links target nord) st' np st'' -> rt_fresh np (snd st') = true).
+Proof.
+  intros c links target s lz nord Hs Hn Hz H. unfold rt_all_ok in H. rewrite Hz in H.
+  apply (rt_run_ok_sound c links target s lz (rt_final_complete c links target lz) nord); try assumption.
+  apply rt_final_complete_ext.
 Qed.
